@@ -204,8 +204,11 @@ class Sem:
             return z3.And(U.isinstance(x, n.cls), U.forall_items(x, pair))
         if k == 'quasi':
             # items are observable (and therefore constrained) for every iterable of the universe
+            # (one-shot iterators are judged by their class alone, like Iterator[...] itself: their
+            # items cannot be observed without consuming them)
             return z3.And(U.isinstance(x, n.cls),
-                          z3.Implies(U.iterable_items(x), U.forall_items(x, lambda t: self.full(n.kids[0], t))))
+                          z3.Implies(z3.And(U.iterable_items(x), z3.Not(U.one_shot(x))),
+                                     U.forall_items(x, lambda t: self.full(n.kids[0], t))))
         if k == 'map':
             def kv(t):
                 return z3.And(self.full(n.kids[0], t), self.full(n.kids[1], U.val_of(x, t)))
@@ -408,6 +411,8 @@ def _type_arg(obj, c):
 def _items(obj, peek=False):
     """Items of a universe container without disturbing it (uses the backing store of the
     harness classes; one-shot iterators are *not* consumed)."""
+    if peek and isinstance(obj, cabc.Iterator):
+        return None
     if hasattr(obj, '_i'):
         return list(obj._i)
     if isinstance(obj, (types.GeneratorType, type(iter([])))):
